@@ -33,6 +33,11 @@ def corpus_items(tier, seed, bool_only=False, uncompute_opts=(True, False)):
         p2 = [p for p in p2 if isb(p[1])]
     core = p2[:50] + small[:60] + ctl + unit[:: max(1, len(unit) // 60)][:60] + stale[::8] + selfif[4::12]
     rest = p2[50:] + small[60:] + rnd + multi + unit + repo + orand[::7] + prand + stale + selfif
+    # a: Qint[4] ** 3 keeps sympy (inside qlasskit) busy for minutes per compilation - with a compile
+    # history three times that: left out by text, as in C01 (membership by rule, not by wall clock)
+    slow = lambda src: "a: Qint[4]" in src and "** 3" in src
+    core = [p for p in core if not slow(p[1])]
+    rest = [p for p in rest if not slow(p[1])]
     specs = []
     seen = set()
 
